@@ -366,6 +366,10 @@ const (
 	opCount
 )
 
+// storage writes are what the fetched / not-yet-fetched partition is about: more of them
+var c47pOpWeights = []int{opBalance, opBalance, opTxSend, opTxSend, opSstore, opSstore, opSstore, opSstore, opWipe, opNewEOA,
+	opNewContract, opNewContract, opDrain, opSetCode, opRead, opEphemeral}
+
 var c47pOpNames = []string{"balance", "txsend", "sstore", "wipe", "neweoa", "newcontract", "drain", "setcode", "read", "ephemeral"}
 
 type c47pBlock struct {
@@ -763,7 +767,7 @@ func c47pBuildChain(rt *rapid.T, sh c47pShape) (*c47pChain, error) {
 			nOps := rapid.IntRange(1, 5).Draw(rt, fmt.Sprintf("blk%d/nOps", idx))
 			var kinds []int
 			for o := 0; o < nOps; o++ {
-				kinds = append(kinds, rapid.IntRange(0, opCount-1).Draw(rt, fmt.Sprintf("blk%d/op%d", idx, o)))
+				kinds = append(kinds, rapid.SampledFrom(c47pOpWeights).Draw(rt, fmt.Sprintf("blk%d/op%d", idx, o)))
 			}
 			entries, changed, desc := w.genBlock(kinds)
 			raw := c47pEncodeBAL(entries)
@@ -834,6 +838,17 @@ type c47pDB struct {
 	base   *c47DB // violation list, notes and the put counter (progress for the watchdog)
 	world  *c47pWorld
 	scheme string
+	// cancel point of the running cycle, in flat account writes (0 = none)
+	accPuts, accTarget atomic.Int64
+	trigger            atomic.Pointer[func()]
+}
+
+// arm makes the n-th flat account write from now on call f (once).
+func (d *c47pDB) arm(n int64, f func()) {
+	d.accTarget.Store(0)
+	d.accPuts.Store(0)
+	d.trigger.Store(&f)
+	d.accTarget.Store(n)
 }
 
 func (d *c47pDB) check(key, val []byte) {
@@ -841,6 +856,9 @@ func (d *c47pDB) check(key, val []byte) {
 	w := d.world
 	switch {
 	case len(key) == 33 && key[0] == 'a':
+		if n := d.accPuts.Add(1); n == d.accTarget.Load() {
+			(*d.trigger.Load())()
+		}
 		h := common.BytesToHash(key[1:])
 		hi := w.hist[h]
 		if hi == nil {
@@ -941,7 +959,7 @@ const (
 var c47pBalNames = []string{"honest", "truncate", "delay", "empty", "drop", "refusesome", "refuseall", "flip", "evil", "swap", "replay", "garbage", "extra"}
 
 type c47pCounters struct {
-	balReqs, balTampered, balRefused, staleRoot atomic.Int64
+	balReqs, balTampered, balRefused, balUndecodable, staleRoot atomic.Int64
 }
 
 type c47pPeer struct {
@@ -1031,8 +1049,17 @@ func (p *c47pPeer) onBALs(tp *testPeerV2, id uint64, hashes []common.Hash) error
 		p.cnt.balTampered.Add(1)
 		p.run.tampered.Add(1)
 	}
-	list, err := rlp.EncodeToRawList(out)
-	if err != nil {
+	// through the wire decoding, as a real reply: rlp.EncodeToRawList would take the item
+	// count from the slice, and a corrupted item with broken framing then makes
+	// RawList.Items index out of range, which no received message can do. A message
+	// that does not decode is never delivered (the real peer is dropped instead).
+	var payload []byte
+	for _, it := range out {
+		payload = append(payload, it...)
+	}
+	var list rlp.RawList[rlp.RawValue]
+	if err := rlp.DecodeBytes(refrlp.WrapList(payload), &list); err != nil {
+		p.cnt.balUndecodable.Add(1)
 		return nil
 	}
 	if err := tp.remote.OnAccessLists(tp, id, list); err != nil {
@@ -1204,9 +1231,11 @@ var (
 )
 
 type c47pStep struct {
-	cancelAt int64
-	move     bool
-	fresh    bool
+	cancelAt    int64 // served requests
+	cancelAccts int64 // flat account writes
+	move        bool
+	fresh       bool
+	last        bool // no cancel point
 }
 
 func c47pJournal(db ethdb.KeyValueReader) *syncProgressV2 {
@@ -1253,19 +1282,35 @@ func TestVerifC47PivotV2(t *testing.T) {
 		// the plan: cancel points, pivot moves, fresh syncer or the same one
 		var plan []c47pStep
 		nSteps := len(sh.gaps) + rapid.IntRange(0, 2).Draw(rt, "extraCycles")
+		// cancel points: after a few served requests (lands in the catch-up of a moved cycle),
+		// after a share of the requests a complete sync needs at least, or after a share of
+		// the accounts has been written (controls the fetched / not yet fetched partition)
+		est := 16 + len(chain.states[0].codes)/4
+		for _, a := range chain.states[0].accts {
+			if a.st != nil {
+				est++
+			}
+		}
 		for i := 0; i < nSteps; i++ {
 			s := c47pStep{
-				move:  rapid.IntRange(0, 3).Draw(rt, fmt.Sprintf("step%d/move", i)) > 0,
+				move:  rapid.IntRange(0, 5).Draw(rt, fmt.Sprintf("step%d/move", i)) > 0,
 				fresh: rapid.Bool().Draw(rt, fmt.Sprintf("step%d/freshSyncer", i)),
 			}
-			if rapid.IntRange(0, 4).Draw(rt, fmt.Sprintf("step%d/early", i)) == 0 {
+			hi := 85
+			if i > 0 {
+				hi = 45 // part of the work is already done
+			}
+			switch rapid.IntRange(0, 5).Draw(rt, fmt.Sprintf("step%d/cancelKind", i)) {
+			case 0:
 				s.cancelAt = int64(rapid.IntRange(1, 4).Draw(rt, fmt.Sprintf("step%d/cancelEarly", i)))
-			} else {
-				s.cancelAt = int64(rapid.IntRange(6, 45).Draw(rt, fmt.Sprintf("step%d/cancelAfter", i)))
+			case 1, 2:
+				s.cancelAt = int64(1 + est*rapid.IntRange(10, hi).Draw(rt, fmt.Sprintf("step%d/cancelPct", i))/100)
+			default:
+				s.cancelAccts = int64(1 + len(chain.states[0].accts)*rapid.IntRange(10, hi).Draw(rt, fmt.Sprintf("step%d/cancelAcctPct", i))/100)
 			}
 			plan = append(plan, s)
 		}
-		plan = append(plan, c47pStep{fresh: rapid.Bool().Draw(rt, "last/freshSyncer")}) // runs to completion
+		plan = append(plan, c47pStep{fresh: rapid.Bool().Draw(rt, "last/freshSyncer"), last: true}) // runs to completion
 		// peers of every cycle (drawn up front: draws must not depend on the schedule)
 		type peerSet struct {
 			peers []*c47pPeer
@@ -1345,13 +1390,14 @@ func TestVerifC47PivotV2(t *testing.T) {
 			sy.rates.OverrideTTLLimit = ttl
 			sy.catchUpWindow = sh.window
 			run := &c47Run{state: state, cancel: make(chan struct{}), cancelAt: step.cancelAt}
+			wdb.arm(step.cancelAccts, func() { run.cancelOnce.Do(func() { close(run.cancel) }) })
 			for i, pp := range sets[ci].peers {
 				p := c47pNewPeer(t, fmt.Sprintf("c%d-peer%d", ci, i), run, pp)
 				sy.Register(p)
 				p.remote = sy
 				regPeers = append(regPeers, p.id)
 			}
-			history = append(history, fmt.Sprintf("cycle %d: pivot #%d cancelAfter=%d fresh=%v peers=%s", ci, chain.pivots[cur], step.cancelAt, step.fresh, sets[ci].desc))
+			history = append(history, fmt.Sprintf("cycle %d: pivot #%d cancelAfter=%dreq/%dacc fresh=%v peers=%s", ci, chain.pivots[cur], step.cancelAt, step.cancelAccts, step.fresh, sets[ci].desc))
 			syc := sy
 			out := c47Sync(func(cc chan struct{}) error { return syc.Sync(target, cc) }, func() string { return c47DumpSyncerV2(syc) }, run, base, 6*time.Minute)
 			total.served.Add(run.served.Load())
@@ -1372,7 +1418,7 @@ func TestVerifC47PivotV2(t *testing.T) {
 				break
 			}
 			cancelled := out.err == ErrCancelled || out.err == triedb.ErrCancelled
-			if !cancelled || step.cancelAt == 0 {
+			if !cancelled || step.last {
 				// an honest peer (peer 0) was available throughout: the sync has no excuse
 				msg := fmt.Sprintf("Sync against pivot #%d failed although peer 0 serves everything honestly: %v", chain.pivots[cur], out.err)
 				if d := c47pDiffFlat(inner, state, changedAll); len(d) > 0 && sy.getPhase() >= phaseGenerate {
